@@ -38,6 +38,7 @@ func ApplyWill(p *mq.Publish, w *model.Will) {
 	p.SetPayload(cp(w.Payload))
 	p.SetQoS(w.QoS)
 	p.SetRetain(w.Retain)
+	p.SetDuplicate(w.XDup)
 	p.SetPayloadFormat(w.PayloadFormat)
 	p.SetMessageExpiryInterval(w.MessageExpiry)
 	p.SetContentType(w.ContentType)
